@@ -219,6 +219,151 @@ Section SerFail.
     - reflexivity.
   Qed.
 
+  Lemma app_ok_encodable (a : app C E) edges S :
+    app_ok C E ltb cur a edges S -> (forall e, In e S -> enc_ok e) -> app_encodable a.
+  Proof.
+    intros Happ Henc.
+    destruct Happ as [HC [[Hh [Hd _]]|[Hh [_ Hw]]]]; split; intro Hx; try congruence.
+    - intros l Hl e He. apply Henc. apply (connection_In C E ltb cur _ _ HC).
+      destruct Hd as [Hd|Hd], Hl as [Hl|Hl]; rewrite Hd in Hl; inversion Hl; subst; exact He.
+    - intros af' bf' lim l Hl e He. destruct (Hw af' bf' lim) as [L [HdL HwL]].
+      assert (l = L) by (destruct HdL as [Hd|Hd], Hl as [Hl|Hl]; rewrite Hd in Hl; inversion Hl; reflexivity).
+      subst l. apply Henc. destruct HwL as [_ [Hin _]]. apply Hin. exact He.
+  Qed.
+
+  (** the same for EVERY cursor argument (an invalid one is the same error in both models) *)
+  Theorem serve_f_lift (a : app C E) edges S ar sel :
+    app_ok C E ltb cur a edges S -> (forall e, In e S -> enc_ok e) ->
+    args_rejected (a_first ar) (a_last ar) = false ->
+    serve_f sel a ar = lift sel (serve a ar).
+  Proof.
+    intros Happ Henc Hrej.
+    destruct (decode_arg C decode (a_after ar) EInvalidAfter) as [af|e1] eqn:Ha;
+      [destruct (decode_arg C decode (a_before ar) EInvalidBefore) as [bf|e2] eqn:Hb|].
+    - exact (proj2 (serve_f_ok a edges S ar af bf sel Happ Henc Hrej Ha Hb)).
+    - assert (Hs : serve a ar = RError EInvalidAfter \/ serve a ar = RError EInvalidBefore).
+      { apply (invalid_cursor_errors C E ltb cur encode decode a ar Hrej). right. eauto. }
+      unfold RelayModelF.serve_f. rewrite (resolve_f_eq a ar (app_ok_encodable a edges S Happ Henc)).
+      unfold RelayModel.serve, observe in Hs |- *. unfold observe_f.
+      destruct (await (fst (resolve a ar))); destruct Hs as [Hs|Hs]; inversion Hs; reflexivity.
+    - assert (Hs : serve a ar = RError EInvalidAfter \/ serve a ar = RError EInvalidBefore).
+      { apply (invalid_cursor_errors C E ltb cur encode decode a ar Hrej). left. eauto. }
+      unfold RelayModelF.serve_f. rewrite (resolve_f_eq a ar (app_ok_encodable a edges S Happ Henc)).
+      unfold RelayModel.serve, observe in Hs |- *. unfold observe_f.
+      destruct (await (fst (resolve a ar))); destruct Hs as [Hs|Hs]; inversion Hs; reflexivity.
+  Qed.
+
+  (** ** walks against the model the check runs, through a connection of any Direction *)
+  Definition opt_warg {A} (o : option A) : warg A := match o with Some x => WVal x | None => WAbsent end.
+
+  Definition as_server_dir (d : direction) (a : app C E) (first last : option Z) (after before : option bytes)
+    : option (page E) :=
+    match serve_dir C E ltb cur encode_f decode d true a
+            {| w_first := opt_warg first; w_last := opt_warg last; w_after := opt_warg after; w_before := opt_warg before |} with
+    | FData edges (Ok sp) _ =>
+        Some {| pg_edges := map snd edges; pg_has_prev := sp_prev sp; pg_has_next := sp_next sp;
+                pg_start := sp_start sp; pg_end := sp_end sp |}
+    | _ => None
+    end.
+
+  Lemma warg_value_opt {A} (o : option A) : warg_value (opt_warg o) = o.
+  Proof. destruct o; reflexivity. Qed.
+
+  Lemma map_snd_ser (l : list E) : map snd (map (fun e => (encode (cur e), e)) l) = l.
+  Proof. induction l as [|x r IH]; [reflexivity|]. cbn [map snd]. rewrite IH. reflexivity. Qed.
+
+  Lemma lift_as_page (r : response E) :
+    match lift true r with
+    | FData edges (Ok sp) _ =>
+        Some {| pg_edges := map snd edges; pg_has_prev := sp_prev sp; pg_has_next := sp_next sp;
+                pg_start := sp_start sp; pg_end := sp_end sp |}
+    | _ => None
+    end =
+    match r with
+    | RData edges (Ok sp) _ =>
+        Some {| pg_edges := edges; pg_has_prev := sp_prev sp; pg_has_next := sp_next sp;
+                pg_start := sp_start sp; pg_end := sp_end sp |}
+    | _ => None
+    end.
+  Proof. destruct r as [e|edges [sp|e] t]; cbn [lift]; try reflexivity. rewrite map_snd_ser. reflexivity. Qed.
+
+  (** a forward page request is answered identically by the forward-only and the bidirectional
+      connection of the model the check runs and by RelayModel's server *)
+  Lemma as_server_dir_forward (a : app C E) edges S d n after :
+    app_ok C E ltb cur a edges S -> (forall e, In e S -> enc_ok e) -> 0 <= n ->
+    d = ForwardOnly \/ d = Bidirectional ->
+    as_server_dir d a (Some n) None after None = as_server C E ltb cur encode decode a (Some n) None after None.
+  Proof.
+    intros Happ Henc Hn Hd. unfold as_server_dir, RelayModelF.serve_dir, as_server.
+    assert (Hrej : args_rejected (Some n) None = false) by (unfold args_rejected; lia).
+    destruct Hd as [-> | ->]; cbn [accept_args opt_warg warg_given w_first w_last w_after w_before orb warg_value];
+      rewrite warg_value_opt;
+      rewrite (serve_f_lift a edges S {| a_first := Some n; a_last := None; a_after := after; a_before := None |} true Happ Henc Hrej);
+      apply lift_as_page.
+  Qed.
+
+  Lemma as_server_dir_backward (a : app C E) edges S d n before :
+    app_ok C E ltb cur a edges S -> (forall e, In e S -> enc_ok e) -> 0 <= n ->
+    d = BackwardOnly \/ d = Bidirectional ->
+    as_server_dir d a None (Some n) None before = as_server C E ltb cur encode decode a None (Some n) None before.
+  Proof.
+    intros Happ Henc Hn Hd. unfold as_server_dir, RelayModelF.serve_dir, as_server.
+    assert (Hrej : args_rejected None (Some n) = false) by (unfold args_rejected; lia).
+    destruct Hd as [-> | ->]; cbn [accept_args opt_warg warg_given w_first w_last w_after w_before orb warg_value];
+      rewrite warg_value_opt;
+      rewrite (serve_f_lift a edges S {| a_first := None; a_last := Some n; a_after := None; a_before := before |} true Happ Henc Hrej);
+      apply lift_as_page.
+  Qed.
+
+  Lemma walk_forward_ext (s1 s2 : option Z -> option Z -> option bytes -> option bytes -> option (page E)) n :
+    (forall after, s1 (Some n) None after None = s2 (Some n) None after None) ->
+    forall fuel after, walk_forward E s1 n fuel after = walk_forward E s2 n fuel after.
+  Proof.
+    intro H. induction fuel as [|k IH]; intro aft; cbn [walk_forward]; [reflexivity|].
+    rewrite H. destruct (s2 (Some n) None aft None) as [p|]; [|reflexivity].
+    destruct (pg_has_next p); [|reflexivity]. rewrite IH. reflexivity.
+  Qed.
+
+  Lemma walk_backward_ext (s1 s2 : option Z -> option Z -> option bytes -> option bytes -> option (page E)) n :
+    (forall before, s1 None (Some n) None before = s2 None (Some n) None before) ->
+    forall fuel before, walk_backward E s1 n fuel before = walk_backward E s2 n fuel before.
+  Proof.
+    intro H. induction fuel as [|k IH]; intro bef; cbn [walk_backward]; [reflexivity|].
+    rewrite H. destruct (s2 None (Some n) None bef) as [p|]; [|reflexivity].
+    destruct (pg_has_prev p); [|reflexivity]. rewrite IH. reflexivity.
+  Qed.
+
+  (** paging visits each edge once — through the model the check runs (SerializeCursor partial),
+      for a forward-only or bidirectional connection forwards, a backward-only or bidirectional
+      one backwards *)
+  Theorem walk_forward_exact_dir (a : app C E) edges S d :
+    app_ok C E ltb cur a edges S ->
+    (forall e, In e S -> enc_ok e) ->
+    (forall e, In e S -> decode (encode (cur e)) = Some (cur e)) ->
+    (forall c, encode c <> []) ->
+    d = ForwardOnly \/ d = Bidirectional ->
+    forall n, 1 <= n -> walk_forward E (as_server_dir d a) n (Datatypes.S (length S)) None = Done S.
+  Proof.
+    intros Happ Henc Hdec Hne Hd n Hn.
+    rewrite (walk_forward_ext (as_server_dir d a) (as_server C E ltb cur encode decode a) n).
+    - exact (walk_forward_exact C E ltb cur ltb_irrefl ltb_trans ltb_total encode decode a edges S Happ Hdec Hne n Hn).
+    - intro aft. apply (as_server_dir_forward a edges S d n aft Happ Henc ltac:(lia) Hd).
+  Qed.
+
+  Theorem walk_backward_exact_dir (a : app C E) edges S d :
+    app_ok C E ltb cur a edges S ->
+    (forall e, In e S -> enc_ok e) ->
+    (forall e, In e S -> decode (encode (cur e)) = Some (cur e)) ->
+    (forall c, encode c <> []) ->
+    d = BackwardOnly \/ d = Bidirectional ->
+    forall n, 1 <= n -> walk_backward E (as_server_dir d a) n (Datatypes.S (length S)) None = Done S.
+  Proof.
+    intros Happ Henc Hdec Hne Hd n Hn.
+    rewrite (walk_backward_ext (as_server_dir d a) (as_server C E ltb cur encode decode a) n).
+    - exact (walk_backward_exact C E ltb cur ltb_irrefl ltb_trans ltb_total encode decode a edges S Happ Hdec Hne n Hn).
+    - intro bef. apply (as_server_dir_backward a edges S d n bef Happ Henc ltac:(lia) Hd).
+  Qed.
+
   (** the number of edges the cost function charges for bounds the number of edges returned *)
   Theorem cost_bounds_page (a : app C E) edges S ar af bf :
     app_ok C E ltb cur a edges S ->
